@@ -228,3 +228,9 @@ package corazawaf
 //@     invariant -1 <= rangeindex && rangeindex < len(rg.rules) && rg.rules == old(rg.rules)
 //@     invariant forall i int :: 0 <= i && i <= rangeindex ==> rg.rules[i].ID_ != id
 //@     invariant forall i int :: 0 <= i && i < len(rg.rules) ==> rg.rules[i].ID_ == old(rg.rules[i].ID_)
+
+// ---------------------------------------------------------------- build-cache keys (C13)
+//@ func (*Rule).AddVariable props C13
+//@   memoize re
+//@ func (*Rule).AddVariableNegation props C13
+//@   memoize re
